@@ -65,7 +65,7 @@ def run(ctx):
     if not records:
         records = [(n, c) for (n, c, k) in sinks if k == "write"]
     copies = [(n, c, k) for (n, c, k) in sinks if k in ("copy", "mkdir")]
-    ctx.floor("R18.1", "copy/mkdir sinks in create_backup", len(copies), 3)
+    ctx.floor("R18.1", "copy/mkdir sinks in create_backup", len(copies), 2)
     if not records:
         ctx.violation("R18.1", create.qualname, "record write", loc(create, create.node),
                       "create_backup no longer writes the backup record (backup_lock.json)")
@@ -95,7 +95,7 @@ def run(ctx):
                   "this %s is not dominated by the existing-backup test with its early return: an existing backup of "
                   "the same name can be overwritten" % k,
                   desc="%s only after the same-name refusal" % norm(c)[:60])
-    ctx.floor("R18.2", "I/O sinks in create_backup", n_guarded, 4)
+    ctx.floor("R18.2", "I/O sinks in create_backup", n_guarded, 3)
     # the in-memory listing too
     for n in v.cfg.nodes:
         if n.kind == "stmt" and isinstance(n.ast, ast.Assign) and any(
